@@ -62,6 +62,12 @@ class RSTransport(asyncio.Protocol):
             await self.session.process_messages(self.receive_message)
         except ConnectionLostError:
             pass
+        except BaseException:
+            # Message processing ended although the connection is not lost, for instance
+            # because the task of a request handler was cancelled.  The session is dead now;
+            # do not keep its socket open.
+            self._asyncio_transport.abort()
+            raise
         finally:
             self._closed_event.set()
 
